@@ -317,6 +317,9 @@ def oracle_probes(ctx):
         "int64": xr.DataArray(np.array([[1, 2, 3], [0, 1, 1], [2, 2, 3]], dtype=np.int64), dims=["t", "ens"], coords={"t": [0, 1, 2]}),
         "int32": xr.DataArray(np.array([[1, 2, 3], [0, 1, 1], [2, 2, 3]], dtype=np.int32), dims=["t", "ens"], coords={"t": [0, 1, 2]}),
         "float32": xr.DataArray(np.array([[f32, 1.5, 2.5], [f32, f32, 0.25], [0.5, 2.5, f32]], dtype=np.float32), dims=["t", "ens"], coords={"t": [0, 1, 2]}),
+        # unsigned storage (counts, oktas): the function only compares and counts, so the scores are those of the values
+        "uint8": xr.DataArray(np.array([[1, 2, 3], [0, 1, 1], [2, 2, 3]], dtype=np.uint8), dims=["t", "ens"], coords={"t": [0, 1, 2]}),
+        "uint16": xr.DataArray(np.array([[1, 2, 3], [0, 1, 1], [2, 2, 3]], dtype=np.uint16), dims=["t", "ens"], coords={"t": [0, 1, 2]}),
     }
     for dt, fx in ens.items():
         for ts in ([0.7], [0.5, 1.5, 2.5], [0.7, 2.0]):
@@ -331,7 +334,7 @@ def oracle_probes(ctx):
                         continue
                     compare_with_oracle(ctx, "brier_score_for_ensemble on a " + dt + " ensemble differs from the exact oracle (members and thresholds "
                                         "compared by value)", ens_oracle_array(dict(c, fcst=fx.astype(float))), None, impl[1], d)
-    ctx.count("dtype_probes", 72)
+    ctx.count("dtype_probes", 120)
 
 
 LARGE_SIZES = [32, 33, 41, 51, 64, 100, 128, 182, 256, 257, 363, 1000, 1291, 1626, 2100]
